@@ -26,3 +26,4 @@ import RenetVerif.Props.SrcTieRecvRel
 import RenetVerif.Props.SrcTieNcPacket
 import RenetVerif.Props.SrcTieNcAddr
 import RenetVerif.Props.SrcTieNcConnToken
+import RenetVerif.Props.SrcTieConn
